@@ -45,87 +45,63 @@ theorem signed_wide (n w raw : Nat) (hn : n = 4 ∨ n = 8) (hw : w = 32 ∨ w = 
   rcases hn with rfl | rfl <;> rcases hw with rfl | rfl <;>
     simp only [Nat.reduceMul, Nat.reducePow, Nat.reduceSub, Int.reducePow] at * <;> split <;> omega
 
-/-- **reads (partial)**: for every format outside the known class — unsigned, or native order, or one byte, or as
-wide as the destination — and every byte string of the format's length, the bits of the destination register that
-the destination view defines hold exactly `struct.unpack`'s value. -/
-theorem read_exact_partial (f : Fmt) (long : Bool) (bs : List UInt8) (hf : f.ok = true) (hl : bs.length = f.n)
-    (hc : ¬ SignedExplicit f long) :
-    readReg f long bs % 2 ^ (if long then 64 else 32) = want f long bs := by
+/-- the model's sign extension agrees with `struct`'s two's complement reading, modulo the destination width -/
+theorem sext_want (f : Fmt) (long : Bool) (u : Nat) (hf : f.ok = true) (hu : u < 256 ^ f.n) :
+    PktVar.sext f long u % 2 ^ (if long then 64 else 32) =
+      ((if f.signed then toSigned f.n u else (u : Int)) % (2 ^ (if long then 64 else 32) : Int)).toNat := by
   have hn := ok_cases f hf
+  generalize hw : (if long then 64 else 32) = w
+  have hw' : w = 32 ∨ w = 64 := by cases long <;> simp at hw <;> omega
+  unfold PktVar.sext
+  simp only [hw]
+  generalize hE : (f.signed && (decide (f.n ≤ 2) || decide (f.n = 4) && long)) = ext
+  cases hs : f.signed
+  · have he : ext = false := by rw [← hE, hs]; rfl
+    subst he
+    simp only [Bool.false_and, Bool.false_eq_true, ↓reduceIte]
+    exact unsigned_mod w u
+  · simp only [↓reduceIte]
+    cases he : ext
+    · -- no shift pair: n = 8, or n = 4 into a 32-bit destination
+      simp only [Bool.false_and, Bool.false_eq_true, ↓reduceIte]
+      have : (f.n = 4 ∨ f.n = 8) ∧ w ≤ 8 * f.n := by
+        subst he
+        simp only [hs, Bool.true_and, Bool.or_eq_false_iff, decide_eq_false_iff_not, Nat.not_le,
+          Bool.and_eq_false_iff] at hE
+        cases hlg : long <;> simp [hlg] at hE hw <;> omega
+      exact signed_wide f.n w u this.1 hw' this.2
+    · have h8 : 8 * f.n ≤ w := by
+        subst he
+        simp only [Bool.and_eq_true, Bool.or_eq_true, decide_eq_true_eq] at hE
+        rcases hE.2 with h | ⟨h, h'⟩
+        · rcases hw' with rfl | rfl <;> omega
+        · subst h'; simp at hw; omega
+      have := sext_signed f.n w u hn hw' h8 hu
+      simpa [C07.sext] using this
+
+/-- **reads**: for every format (B H I Q b h i q, native and explicit byte orders) and every byte string of the
+format's length, the bits of the destination register that the destination view defines hold exactly
+`struct.unpack`'s value (full strength since the `fix:` commit that extends the sign after the byte swap). -/
+theorem read_exact (f : Fmt) (long : Bool) (bs : List UInt8) (hf : f.ok = true) (hl : bs.length = f.n) :
+    readReg f long bs % 2 ^ (if long then 64 else 32) = want f long bs := by
   have hraw : decLE bs < 256 ^ f.n := hl ▸ decLE_lt bs
   have hbe : decBE bs < 256 ^ f.n := hl ▸ decBE_lt bs
   have hbs : encLE f.n (decLE bs) = bs := hl ▸ encLE_decLE bs
   have h1 : f.n = 1 → decBE bs = decLE bs := fun h => decBE_one bs (hl.trans h)
-  generalize hw : (if long then 64 else 32) = w at *
-  have hw' : w = 32 ∨ w = 64 := by cases long <;> simp at hw <;> omega
-  -- the value before the LE/BE instruction
-  have hv1 : ∀ ext : Bool, (if (ext && decide (2 ^ (8 * f.n - 1) ≤ decLE bs)) = true then decLE bs + 2 ^ w - 2 ^ (8 * f.n) else decLE bs)
-      = if ext then sext f.n w (decLE bs) else decLE bs := by
-    intro ext; cases ext <;> simp [sext]
-  unfold readReg want unpackZ
-  simp only [hw, hv1]
-  generalize hE : (f.signed && (decide (f.n ≤ 2) || decide (f.n = 4) && long)) = ext
   have hm : decLE bs % 2 ^ (8 * f.n) = decLE bs := Nat.mod_eq_of_lt (by rw [Nat.pow_mul]; exact hraw)
-  -- facts about the shift pair
-  have hext8 : ext = true → 8 * f.n < w ∧ f.signed = true := by
-    intro he; subst he
-    simp only [Bool.and_eq_true, Bool.or_eq_true, decide_eq_true_eq] at hE
-    refine ⟨?_, hE.1⟩
-    rcases hE.2 with h | ⟨h, h'⟩
-    · rcases hw' with rfl | rfl <;> omega
-    · subst h'; simp at hw; omega
-  have hnoext : ext = false → f.signed = true → (f.n = 4 ∨ f.n = 8) ∧ w ≤ 8 * f.n := by
-    intro he hs; subst he
-    simp only [hs, Bool.true_and, Bool.or_eq_false_iff, decide_eq_false_iff_not, Nat.not_le,
-      Bool.and_eq_false_iff] at hE
-    cases hlg : long <;> simp [hlg] at hE hw <;> omega
-  -- the value of the model for each byte order
-  have key : ∀ u : Nat, u < 256 ^ f.n →
-      (f.signed = false → u % 2 ^ w = ((u : Int) % (2 ^ w : Int)).toNat) ∧
-      (f.signed = true → ext = true → sext f.n w u % 2 ^ w = (toSigned f.n u % (2 ^ w : Int)).toNat) ∧
-      (f.signed = true → ext = false → u % 2 ^ w = (toSigned f.n u % (2 ^ w : Int)).toNat) := by
-    intro u hu
-    refine ⟨fun _ => unsigned_mod w u, fun _ he => sext_signed f.n w u hn hw' (Nat.le_of_lt (hext8 he).1) hu,
-      fun hs he => signed_wide f.n w u (hnoext he hs).1 hw' (hnoext he hs).2⟩
-  have hexcl : f.order ≠ .native → f.signed = true → ext = true → f.n ≠ 1 → False := by
-    intro ho hs he hn1
-    apply hc
-    exact ⟨ho, hs, by omega, by rw [hw]; exact (hext8 he).1⟩
-  cases hs : f.signed
-  · -- unsigned: no shift pair
-    have he : ext = false := by rw [← hE, hs]; rfl
-    subst he
-    cases ho : f.order
-    · exact (key _ hraw).1 hs
-    · simp only [Bool.false_eq_true, ↓reduceIte, hm, ite_self]; exact (key _ hraw).1 hs
-    · simp only [Bool.false_eq_true, ↓reduceIte, hm, hbs]
-      by_cases hn1 : f.n = 1
-      · simp only [hn1, ↓reduceIte]; rw [h1 hn1]; exact (key _ hraw).1 hs
-      · simp only [hn1, ↓reduceIte]; exact (key _ hbe).1 hs
-  · cases he : ext
-    · -- signed without shift pair: at least as wide as the destination
-      have hne1 : f.n ≠ 1 := by have := (hnoext he hs).1; omega
-      cases ho : f.order
-      · exact (key _ hraw).2.2 hs he
-      · simp only [Bool.false_eq_true, ↓reduceIte, hm, hne1]; exact (key _ hraw).2.2 hs he
-      · simp only [Bool.false_eq_true, ↓reduceIte, hm, hbs, hne1]; exact (key _ hbe).2.2 hs he
-    · -- signed with shift pair
-      cases ho : f.order
-      · exact (key _ hraw).2.1 hs he
-      · by_cases hn1 : f.n = 1
-        · simp only [hn1, ↓reduceIte]; rw [← hn1]; exact (key _ hraw).2.1 hs he
-        · exact (hexcl (by simp [ho]) hs he hn1).elim
-      · by_cases hn1 : f.n = 1
-        · simp only [hn1, ↓reduceIte]; rw [h1 hn1, ← hn1]; exact (key _ hraw).2.1 hs he
-        · exact (hexcl (by simp [ho]) hs he hn1).elim
+  unfold readReg want unpackZ
+  cases ho : f.order
+  · exact sext_want f long _ hf hraw
+  · simp only [hm, ite_self]; exact sext_want f long _ hf hraw
+  · by_cases hn1 : f.n = 1
+    · simp only [hn1, ↓reduceIte]; rw [h1 hn1]; rw [← hn1] at *; exact sext_want f long _ hf hraw
+    · simp only [hn1, ↓reduceIte, hm, hbs]; exact sext_want f long _ hf hbe
 
-/-- the full statement (every format, including signed formats with an explicit byte order) -/
-def read_full : Prop := ∀ (f : Fmt) (long : Bool) (bs : List UInt8), f.ok = true → bs.length = f.n →
-  readReg f long bs % 2 ^ (if long then 64 else 32) = want f long bs
+/-- the pre-fix order of operations (sign extension before the swap), for which the statement fails -/
+def read_old_full : Prop := ∀ (f : Fmt) (long : Bool) (bs : List UInt8), f.ok = true → bs.length = f.n →
+  readRegOld f long bs % 2 ^ (if long then 64 else 32) = want f long bs
 
-/-- **the unchanged code violates the full statement**: a `>h` variable holding ff fe (−2) read into a 64-bit
-register gives 65534: the value is sign-extended before the byte swap and the swap instruction zero-extends. -/
-theorem read_full_refuted : ¬ read_full := by
+theorem read_old_refuted : ¬ read_old_full := by
   intro h
   have := h ⟨2, true, .be⟩ true [0xff, 0xfe] (by decide) (by decide)
   revert this
@@ -183,8 +159,8 @@ theorem guard_covers (N len p n : Nat) (h : guardRuns N len = true) (hp : p + n 
   simp [guardRuns] at h; omega
 
 /-! ### non-vacuity -/
-example : (⟨2, true, .native⟩ : Fmt).ok = true ∧ ¬ SignedExplicit ⟨2, true, .native⟩ true ∧
-    readReg ⟨2, true, .native⟩ true [0xfe, 0xff] = 2 ^ 64 - 2 := by decide
+example : (⟨2, true, .native⟩ : Fmt).ok = true ∧
+    readReg ⟨2, true, .native⟩ true [0xfe, 0xff] = 2 ^ 64 - 2 ∧ readReg ⟨2, true, .be⟩ true [0xff, 0xfe] = 2 ^ 64 - 2 := by decide
 example : writeBytes ⟨4, false, .be⟩ 0x11223344 = [0x11, 0x22, 0x33, 0x44] := by decide
 
 end Ebv.C07
